@@ -131,3 +131,27 @@ pub proof fn l_part_encoder_filter(bs: int, order: int, c: int)
         }
     }
 }
+
+/// Capacity of the encoder's candidate buffers: with the partition order limited to 6 (64 partitions, the capacity of the
+/// ArrayVec the chunks are collected into) cutting at most a block of residuals into chunks of block/2^po never yields
+/// more than 2^po <= 64 chunks -- so `collect::<Option<ArrayVec<_, MAX_PARTITIONS>>>()` cannot overflow.
+pub proof fn l_part_capacity(bs: int, order: int, c: int)
+    requires 1 <= c <= 64, bs >= 1, bs % c == 0, 0 <= order <= bs, bs / c >= 1
+    ensures rchunk_count(bs - order, bs / c) <= c, rchunk_count(bs - order, bs / c) <= 64,
+{
+    let p = bs / c;
+    vstd::arithmetic::div_mod::lemma_fundamental_div_mod(bs, c);
+    assert(bs == c * p);
+    let len = bs - order;
+    assert(len + p - 1 <= p * c + (p - 1)) by (nonlinear_arith) requires bs == c * p, len == bs - order, order >= 0;
+    vstd::arithmetic::div_mod::lemma_div_is_ordered(len + p - 1, p * c + (p - 1), p);
+    vstd::arithmetic::div_mod::lemma_fundamental_div_mod_converse(p * c + (p - 1), p, c, p - 1);
+}
+/// 2^po <= 64 for po <= 6 (what `.min(MAX_PARTITIONS.ilog2())` guarantees for MAX_PARTITIONS == 64)
+pub proof fn l_pow2_le_64(po: nat)
+    requires po <= 6
+    ensures vstd::arithmetic::power2::pow2(po) <= 64
+{
+    vstd::arithmetic::power2::lemma2_to64();
+    if po < 6 { vstd::arithmetic::power2::lemma_pow2_strictly_increases(po, 6); }
+}
